@@ -49,7 +49,7 @@ def configs(tier):
     for c in cs:
         if tier == "quick":
             c["depth"] = 3 if c["engine"] == "joblib" else 2
-            c["max_states"] = 200 if c["engine"] == "joblib" else 40
+            c["max_states"] = 200 if c["engine"] == "joblib" else 25
         else:
             c["depth"] = 8 if c["engine"] == "joblib" else 3
             c["max_states"] = 1500 if c["engine"] == "joblib" else 150
@@ -57,7 +57,7 @@ def configs(tier):
     # from the file on demand)
     cs.append({"name": "lazy", "engine": "h5netcdf", "chunks": 1,
                "depth": 2 if tier == "quick" else 3,
-               "max_states": 30 if tier == "quick" else 150})
+               "max_states": 12 if tier == "quick" else 150})
     return cs
 
 
